@@ -11,3 +11,7 @@ def targets(eng):
     return conn.targets_for(eng, ["process_packet", "_handle_ping_request_internal", "_handle_get_time_request_internal",
                                   "_handle_disconnect_request_internal", "_add_message_callback_without_remove",
                                   "add_message_callback", "_remove_message_callback", "finish_connection"], ["C12"])
+
+
+# built-in mutants of the real source text for the thorough tier's self-check (each must be refuted by a named obligation)
+MUTANTS = [('dispatch-without-copy', 'aioesphomeapi/connection.py', '            handlers_copy = handlers.copy()', '            handlers_copy = handlers')]
